@@ -430,10 +430,59 @@ def _pm_needs_pm(ctx):
         ctx.shape(bool(L.search(w)), 'RX-LANG', f"pm_regex finds {w!r}")
 
 
+def cleanup_words(ctx, rule='SINK'):
+    """cleanup_desc (shared by the marker walk, the chunker and
+    rebuild_sec_within) may drop a connector word only from the END of a
+    block, and recognises it whatever its case:
+      * a word test (endswith / startswith / removesuffix / removeprefix with a
+        lower-case word) on text that was not lower-cased misses 'OF', 'All In';
+      * a word removed from the FRONT of a block ('and ', 'the ') is text of
+        the description - and of every unused fragment that sec_within glues
+        back - that disappears without a flag."""
+    cd = ctx.repo.func('plss_parse:cleanup_desc')
+    tables = {}
+    for x in walk_local(cd.node):
+        if isinstance(x, ast.Assign) and isinstance(x.targets[0], ast.Name):
+            v = ctx.fold.eval(x.value, {}, cd.module.name)
+            if isinstance(v, (list, tuple)) and v and all(isinstance(w, str) for w in v) and any(ch.isalpha() for w in v for ch in w):
+                tables[x.targets[0].id] = list(v)
+    loopvars = {}
+    for lp in walk_local(cd.node):
+        if isinstance(lp, ast.For) and isinstance(lp.target, ast.Name) and isinstance(lp.iter, ast.Name) and lp.iter.id in tables:
+            loopvars[lp.target.id] = tables[lp.iter.id]
+    n = 0
+    for c in walk_local(cd.node):
+        if not (isinstance(c, ast.Call) and isinstance(c.func, ast.Attribute)
+                and c.func.attr in ('endswith', 'startswith', 'removesuffix', 'removeprefix') and c.args):
+            continue
+        a = c.args[0]
+        words = loopvars.get(a.id) if isinstance(a, ast.Name) else [a.value] if isinstance(a, ast.Constant) and isinstance(a.value, str) else None
+        if not words or not any(ch.isalpha() for w in words for ch in w):
+            continue
+        n += 1
+        lowered = any(isinstance(x, ast.Call) and isinstance(x.func, ast.Attribute) and x.func.attr in ('lower', 'casefold')
+                      for x in ast.walk(c.func.value))
+        if all(w == w.lower() for w in words):
+            ctx.check(lowered, rule, f"cleanup_desc: `{norm(c)[:50]}` compares lower-cased text with the lower-case words",
+                      detail_bad=f"`{norm(c)[:60]}` looks for {words[:3]}... in text that has not been lower-cased: 'NE/4 OF', "
+                                 f"'ALL IN', 'N/2 Of' keep their connector, so the description block is not clean (and differs "
+                                 f"by the case the text happens to be written in)",
+                      key=f"{rule}|cleanup_desc|case|{c.func.attr}", where=common.loc(cd, c))
+        if c.func.attr in ('startswith', 'removeprefix'):
+            ctx.violation(rule, 'cleanup_desc drops connector words from the end of a block only',
+                          f"`{norm(c)[:60]}` (words {words}) removes words from the FRONT of a block: cleanup_desc also runs on every "
+                          f"unused fragment that sec_within re-attaches and on the description itself, so words in the middle "
+                          f"of the rejoined description / at the start of a block vanish with no unused_desc flag",
+                          key=f"{rule}|cleanup_desc|front-words", where=common.loc(cd, c))
+    if n == 0:
+        ctx.undecided(rule, 'cleanup_desc: word tests', 'no endswith / startswith / removesuffix test on a word table found')
+
+
 def _cleanup(ctx):
     n = word_tables(ctx)
     cd = ctx.repo.func('plss_parse:cleanup_desc')
     ctx.attempt(stripset, [cd])
+    ctx.attempt(cleanup_words)
     # the words cleanup_desc may cut from the end of a block without a flag:
     # the connectors accepted by design on the pinned tree.  Any further word
     # in the table is a word that can vanish silently (the property's
